@@ -43,6 +43,12 @@ def main():
         known = json.load(open(a.known)) if a.known else []
         ctx = pbt.Ctx(a.prop, a.sub, a.tier, a.seed, a.shard, a.nshards,
                       known, a.outdir, n=a.n)
+        # shrinking stops well before the runner's time limit for this
+        # unit: a failure found in the collect phase must never be lost to a
+        # shrink phase that is killed from outside
+        ctx.partial_path = a.out + ".partial"
+        ctx.deadline = ctx.t0 + 0.6 * sub.timeout[
+            0 if a.tier == "quick" else 1]
         if a.replay:
             rp = json.load(open(a.replay))
             case = pbt.from_jsonable(rp["case"])
